@@ -220,9 +220,10 @@ func (s *State) havocArrsKeeping(arrs []string, forget map[string]bool) {
 
 // havocArrsYoung: like havocArrs, but only cells allocated after counter value T may change
 // (the callee can only reach memory through an argument whose whole object graph is younger than T).
-func (s *State) havocArrsYoung(arrs []string, T string) {
+func (s *State) havocArrsYoung(arrs []string, T string, decoded bool) {
 	fc := s.fc
 	sort.Strings(arrs)
+	callStart := s.alloc()
 	for _, a := range arrs {
 		if _, ok := fc.g.arrSort[a]; !ok {
 			continue
@@ -235,6 +236,23 @@ func (s *State) havocArrsYoung(arrs []string, T string) {
 		fc.written[a] = true
 		s.bounds[a] = ""
 		fc.usesLambda()
+		if decoded {
+			// a client read fills its out object with freshly decoded (or deep-copied) data: a reference cell of the young
+			// region is afterwards unchanged, nil, or points to memory allocated during the call
+			var ref string
+			switch fc.g.arrSort[a] {
+			case arrSortOf(sRef, sRef):
+				ref = "(select " + hv + " yr)"
+			case arrSortOf(sRef, sSlice):
+				ref = "(sarr (select " + hv + " yr))"
+			case arrSortOf(sRef, sIface):
+				ref = "(iref (select " + hv + " yr))"
+			}
+			if ref != "" {
+				fc.q.assert(implies(s.reach, fmt.Sprintf("(forall ((yr Ref)) (! (=> (> (rbase yr) %s) (or (= (select %s yr) (select %s yr)) (<= (rbase %s) 0) (> (rbase %s) %s))) :pattern ((select %s yr))))",
+					T, hv, old, ref, ref, callStart, hv)))
+			}
+		}
 	}
 }
 
